@@ -163,7 +163,10 @@ CORE = [
 FULL = [(s, b, None) for s in ('s0', 's1', 's2', 's3', 's4', 's5', 's6') for b in ('none', 'errors', 'shared', 'tags', 'examples', 'prefix', 'misc', 'schemas')] + \
        [(s, 'none', d) for s in ('s1', 's4', 's5') for d in DOCSTRINGS] + [('s1', 'errors', 'draises'), ('s3', 'prefix', 'dparams')]
 
+USER_EXTRA = {'x-origin': 'svc', 'x-list': [1]}          # an object the user hands to the extractor
+
 STACKS = {
+    'pydantic-extra': lambda: [PydanticSchemaExtractor(json_schema_extra=USER_EXTRA)],
     'default': lambda: [],
     'pydantic': lambda: [PydanticSchemaExtractor()],
     'docstring': lambda: [DocstringSchemaExtractor()],
@@ -277,6 +280,8 @@ def gen_cases(ctx):
     for stack in STACKS:
         for kind in KINDS:
             for prefix in ('', '/sub'):
+                if stack == 'pydantic-extra' and prefix:
+                    continue
                 if kind == 'openrpc' and prefix:
                     continue          # OpenRPC documents the root endpoint only (it has no notion of paths)
                 if ctx.quick and prefix and stack not in ('pydantic', 'docstring'):
@@ -302,6 +307,11 @@ def gen_cases(ctx):
                 yield dict(set='core', atoms=idx, stack=stack, kind=kind, prefix='', sequence=True)
             for i in core:
                 yield dict(set='core', atoms=(i,), stack=stack, kind=kind, prefix='', late_error=True)
+    # the same function registered under two exposed names in one document
+    for stack in ('pydantic', 'docstring'):
+        for kind in KINDS:
+            for i in core:
+                yield dict(set='core', atoms=(i,), stack=stack, kind=kind, prefix='', alias=True)
     # several endpoints in one document (OpenAPI): the first method on the root endpoint, the others under /sub
     for stack in ('pydantic', 'docstring+pydantic'):
         for kind in ('openapi-3.1', 'openapi-3.0'):
@@ -331,6 +341,9 @@ def run_case(case, rec):
     if case.get('sequence') or case.get('late_error'):
         return run_sequence(case, rec, atoms, kind, stack, path, viol)
     methods, users, names = build_methods(atoms)
+    if case.get('alias'):
+        methods.append(Method(methods[0].method, 'alias_' + names[0], context=methods[0].context))
+        names.append('alias_' + names[0])
     if prefix == 'multi':
         prefixes = [''] + ['/sub'] * (len(methods) - 1)
     else:
@@ -376,15 +389,25 @@ def run_case(case, rec):
         if texts[g] != texts[0]:
             viol('repeated generation yields a different document', 'identical', 'generation %d differs' % (g + 1))
             break
+    if USER_EXTRA != {'x-origin': 'svc', 'x-list': [1]}:
+        viol('generation modified objects passed in by the user', {'x-origin': 'svc', 'x-list': [1]}, dict(USER_EXTRA))
+        USER_EXTRA.clear()
+        USER_EXTRA.update({'x-origin': 'svc', 'x-list': [1]})
     after = snapshot(methods, users)
     if after != before:
         what = 'method annotations' if after[0] != before[0] else 'objects passed in by the user'
         viol('generation modified %s' % what, 'unchanged', [a for a, b in zip(after, before) if a != b][0][:300])
     # non-interference: each method's entry equals its entry when documented alone
-    if len(atoms) > 1:
-        for i, atom in enumerate(atoms):
-            m_alone, u_alone, n_alone = build_methods(atoms[:i] + [atom])     # same position -> same generated name
-            solo_methods = [m_alone[i]]
+    if len(methods) > 1:
+        for i in range(len(methods)):
+            if case.get('alias'):
+                m_alone, u_alone, n_alone = build_methods(atoms)
+                solo_methods = [m_alone[0]] if i == 0 else [Method(m_alone[0].method, names[1], context=m_alone[0].context)]
+                atom = atoms[0]
+            else:
+                atom = atoms[i]
+                m_alone, u_alone, n_alone = build_methods(atoms[:i] + [atom])     # same position -> same generated name
+                solo_methods = [m_alone[i]]
             try:
                 solo_doc = json.loads(json.dumps(make_spec(kind, stack, variant).schema(path=path, methods_map={prefixes[i]: solo_methods}, **gkw),
                                                  sort_keys=True, cls=specs_mod.JSONEncoder))
@@ -526,7 +549,7 @@ def replay(doc):
     from mc.core import Ctx, Recorder, jdump
     rec = Recorder()
     c = doc['case']
-    case = {k: c[k] for k in ('set', 'atoms', 'stack', 'kind', 'prefix', 'variant', 'sequence', 'late_error') if k in c}
+    case = {k: c[k] for k in ('set', 'atoms', 'stack', 'kind', 'prefix', 'variant', 'sequence', 'late_error', 'alias') if k in c}
     run_case(case, rec)
     ctx = Ctx('C16', 'quick', 0, 1)
     ctx.rec = rec
